@@ -117,6 +117,14 @@ def cli(argv, cwd=None):
         finally:
             if old:
                 os.chdir(old)
+    # main() turns library exceptions into "log + exit status 1"
+    if oc.kind == 'return' and oc.value == 1:
+        raised = [r.msg for r in h.records
+                  if isinstance(r.msg, GematoException)
+                  and not isinstance(r.msg, ManifestMismatch)]
+        if raised:
+            oc = classify_exception(raised[-1])
+            oc.value = 1
     return oc, h.records, out.getvalue()
 
 
